@@ -6,7 +6,11 @@
 package fuzz
 
 import (
+	"bytes"
+	"strings"
 	"testing"
+
+	"pault.ag/go/debian/control"
 
 	"verif/internal/core"
 	"verif/internal/gen"
@@ -76,12 +80,15 @@ func FuzzC08Cycle(f *testing.F) {
 		f.Add([]byte(gen.Deb822Doc(r).Render()))
 	}
 	f.Fuzz(func(t *testing.T, b []byte) {
-		// the class "first logical line empty" is excluded (two pinned known findings)
-		if ref, ok := model.RefRead(string(b)); ok {
-			for _, p := range ref {
-				for _, ls := range p.Lines {
-					if len(ls) > 0 && ls[0] == "" {
-						return
+		// the class "first logical line empty while the value is not" is excluded
+		// (two pinned known findings); it is recognised on what the reader returns
+		if pr, err := control.NewParagraphReader(bytes.NewReader(b), nil); err == nil {
+			if ps, err := pr.All(); err == nil {
+				for _, p := range ps {
+					for _, v := range p.Values {
+						if strings.HasPrefix(v, "\n") {
+							return
+						}
 					}
 				}
 			}
